@@ -335,19 +335,19 @@ func (r *runtime) InstantiateModule(
 	}
 
 	// Instantiate the module.
-	mod, err = r.store.Instantiate(ctx, code.module, name, sysCtx, code.typeIDs)
+	// Attach the code closer, if any, so that closing the module also closes the compiled code.
+	// This is done by the store before the module is visible to concurrent Close calls.
+	var codeCloser api.Closer
+	if code.closeWithModule {
+		codeCloser = code
+	}
+	mod, err = r.store.InstantiateWithCodeCloser(ctx, code.module, name, sysCtx, code.typeIDs, codeCloser)
 	if err != nil {
 		// If there was an error, don't leak the compiled module.
 		if code.closeWithModule {
 			_ = code.Close(ctx) // don't overwrite the error
 		}
 		return nil, err
-	}
-
-	// Attach the code closer so that anything afterward closes the compiled
-	// code when closing the module.
-	if code.closeWithModule {
-		mod.(*wasm.ModuleInstance).CodeCloser = code
 	}
 
 	// Now, invoke any start functions, failing at first error.
